@@ -28,6 +28,7 @@ import (
 	"time"
 
 	"github.com/cgi-fr/jsonline/pkg/cast"
+	"github.com/cgi-fr/jsonline/pkg/jsonline"
 )
 
 var casterFns = map[string]func(interface{}) (interface{}, error){
@@ -439,6 +440,32 @@ func genC09(cw *caseWriter, seed uint64, tier string) {
 			emitCast(cw, "C09", c, s, true)
 		}
 	}
+	// with the documented package variable cast.TimeStringFormat assigned other layouts by the program (digits only,
+	// date only): integer casts do not read dates, whatever the layout says
+	for _, layout := range []string{"20060102", "2006-01-02", "150405", "2006", "1", time.RFC1123} {
+		saved := cast.TimeStringFormat
+		cast.TimeStringFormat = layout
+		for _, txt := range []string{"20210101", "19700101", "235959", "2021", "1", "12", "0", "-20210101", "20211301", "99999999", "2021-01-01"} {
+			for _, c := range intCallees {
+				emitCast(cw, "C09", c, txt, true)
+				emitCast(cw, "C09", c, json.Number(txt), true)
+				emitCast(cw, "C09", c, []byte(txt), true)
+			}
+		}
+		cast.TimeStringFormat = saved
+	}
+	// column level: every format that reads text x every integer raw type, fed with decimal texts as JSON strings
+	// and as JSON numbers (single digits, signs, the bounds of every width and one past them)
+	colTexts := []string{"0", "1", "7", "9", "-1", "-7", "10", "12", "48", "55", "57", "127", "128", "-128", "-129", "255", "256", "32767", "32768", "-32768", "65535", "65536", "2147483647", "2147483648", "-2147483648",
+		"4294967295", "4294967296", "9223372036854775807", "9223372036854775808", "-9223372036854775808", "18446744073709551615", "18446744073709551616", "007", "+7", " 7", "7 ", "7.0", "7e0", "", "x"}
+	for _, f := range []string{"string", "numeric", "auto", "timestamp", "boolean"} {
+		for _, ty := range []string{"int", "i64", "i32", "i16", "i8", "uint", "u64", "u32", "u16", "u8"} {
+			for _, txt := range colTexts {
+				emitImpFor(cw, "C09", f, ty, txt)
+				emitImpFor(cw, "C09", f, ty, json.Number(txt))
+			}
+		}
+	}
 	// uniformly random
 	n := 3000
 	if tier == "thorough" {
@@ -506,6 +533,10 @@ func c10Sources() []interface{} {
 	srcs = append(srcs, &tp, json.RawMessage(`{"a":1}`), json.RawMessage(`null`), json.RawMessage(nil), json.RawMessage(`"2021-09-24"`), json.RawMessage("true"),
 		net.IP{1, 2, 3, 4}, net.HardwareAddr{1, 2}, bytes.NewBufferString("12"), strings.NewReader("12"), &strings.Builder{}, []rune("12"), []uint16{1}, [2]bool{true, false},
 		time.UTC, time.Saturday, sql.NullBool{Bool: true, Valid: true}, sql.NullTime{Time: tp, Valid: true}, sql.RawBytes("12"), errors.New("12"), os.ErrNotExist)
+	// byte slices past the lengths an error message might treat differently (32, 64, 256, 4096)
+	for _, n := range []int{17, 31, 32, 33, 63, 64, 65, 255, 256, 257, 4096, 4097, 70000} {
+		srcs = append(srcs, bytes.Repeat([]byte{7}, n), strings.Repeat("7", n))
+	}
 	// byte arrays of every length 0-16
 	srcs = append(srcs, [0]byte{}, [1]byte{1}, [2]byte{1, 2}, [3]byte{1, 2, 3}, [4]byte{1, 2, 3, 4}, [5]byte{5}, [6]byte{6}, [7]byte{7}, [8]byte{1, 2, 3, 4, 5, 6, 7, 8},
 		[9]byte{9}, [10]byte{10}, [11]byte{11}, [12]byte{12}, [13]byte{13}, [14]byte{14}, [15]byte{15}, [16]byte{16})
@@ -639,8 +670,13 @@ func genC10(cw *caseWriter, seed uint64, tier string) {
 	// row level: 9 formats x (18 raw types + none) x the values a column may be asked to import
 	for _, f := range []string{"string", "numeric", "boolean", "binary", "date", "datetime", "timestamp", "auto", "hidden"} {
 		for _, ty := range append([]string{"none"}, tyNames...) {
-			for _, v := range impValues() {
+			for i, v := range impValues() {
 				emitImp(cw, f, ty, v)
+				if i%5 == 0 {
+					// … into a cell that has just refused something, next to a sibling row whose column took Values of
+					// other declarations
+					emitImpAfter(cw, "C10", f, ty, []interface{}{struct{}{}, "not base64 !!", []interface{}{1}}, v)
+				}
 			}
 		}
 	}
@@ -778,6 +814,29 @@ func genC11(cw *caseWriter, seed uint64, tier string) {
 					}
 				}
 				emitImpFor(cw, "C11", "binary", ty, base64.StdEncoding.EncodeToString(b))
+				if k == 2 {
+					// … into a cell that has just rejected an ill-sized payload and a text that is not base64
+					emitImpAfter(cw, "C11", "binary", ty, []interface{}{"AAAAAAAAAAAAAAAAAAAAAAAAAA==", "!!", "AAAAAAAAAAAAAAAAAAAAAAAAAA=="}, base64.StdEncoding.EncodeToString(b))
+				}
+			}
+		}
+	}
+	// the same through whole lines — the library route and the jl binary with the column declared in the
+	// descriptor language, under every name it has for the raw type (byte = uint8, rune = int32)
+	for _, ty := range append(append([]string{}, fixedWidthTys...), "bool") {
+		for _, n := range []int{0, 1, 2, 3, 4, 5, 8, 9, 16} {
+			b := make([]byte, n)
+			for j := range b {
+				b[j] = byte(r.u64())
+			}
+			cols := []colDesc{{name: "c", format: "binary", ty: ty}}
+			line := []byte(`{"c":"` + base64.StdEncoding.EncodeToString(b) + `"}`)
+			emitLine(cw, "C11", cols, cols, line, true)
+			if jlBin() != "" {
+				jlRouteCount = jlRouteCount/jlEvery*jlEvery + jlEvery // next alias
+				emitLineJl(cw, "C11", cols, cols, line)
+				jlRouteCount += jlEvery
+				emitLineJl(cw, "C11", cols, cols, line)
 			}
 		}
 	}
@@ -803,6 +862,64 @@ func emitRT(cw *caseWriter, via string, src interface{}) {
 	cw.count("src:" + tyName(src))
 	s := dynStr(src)
 	cw.emit("rt "+via+" "+s, true, "rt", "C12", via, s, extStr(ext), resultStr(res, err, pan), back)
+}
+
+// emitRTRow: an `rt` case whose rendering comes from a column of the matching format without raw type — marshalled
+// (how%4 == 0), exported from a fresh cell (1), or exported after the key was Set twice, the first time with a
+// value of another Go type (2, 3) — instead of from the caster called directly.
+func emitRTRow(cw *caseWriter, via string, src interface{}, how int) {
+	f := jsonline.Numeric
+	if via == "ToString" {
+		f = jsonline.String
+	}
+	var res interface{}
+	var err error
+	pan := guard(func() {
+		switch how % 4 {
+		case 0:
+			var b []byte
+			b, err = jsonline.NewValue(src, f, nil).MarshalJSON()
+			if err != nil {
+				return
+			}
+			if f == jsonline.Numeric {
+				if string(b) == "null" {
+					res = nil
+				} else {
+					res = json.Number(string(b))
+				}
+			} else {
+				var sv interface{}
+				if err = json.Unmarshal(b, &sv); err == nil {
+					res = sv
+				}
+			}
+		case 1:
+			res, err = jsonline.NewValue(src, f, nil).Export()
+		default:
+			row := jsonline.NewRow()
+			row.SetValue("c", jsonline.NewValue(nil, f, nil))
+			row.Set("c", []interface{}{float32(1.5), int64(7), "x", uint8(3), 2.5, true}[(how/4)%6])
+			row.Set("c", src)
+			cell, _ := row.GetValue("c")
+			res, err = cell.Export()
+		}
+	})
+	ext := map[string]string{}
+	extFor(src, ext)
+	back := "-"
+	if err == nil && pan == "" {
+		extFor(res, ext)
+		r2, e2, p2 := callCast("To:"+tyName(src), res)
+		back = resultStr(r2, e2, p2)
+	}
+	cw.count("via-row:" + via)
+	s := dynStr(src)
+	resS := resultStr(res, err, pan)
+	if err != nil && pan == "" {
+		resS = "err cast" // a column reports a refused rendering with its own error class; the class is not what is judged here
+	}
+	cw.emit(fmt.Sprintf("rt from a column (%d) %s %s", how%4, via, s), true, "rt", "C12", via, s, extStr(ext), resS, back)
 }
 
 func genC12(cw *caseWriter, seed uint64, tier string) {
@@ -869,9 +986,15 @@ func genC12(cw *caseWriter, seed uint64, tier string) {
 	// the float32 values whose shortest text is not read back exactly when it is first rounded to float64
 	// (double rounding): the only two finite ones (an exhaustive scan finds them)
 	vals = append(vals, math.Float32frombits(0x15ae43fd), math.Float32frombits(0x95ae43fd))
-	for _, v := range vals {
+	for i, v := range vals {
 		emitRT(cw, "ToString", v)
 		emitRT(cw, "ToNumber", v)
+		if i%3 == 0 {
+			// the same renderings taken from a column: what a numeric / string cell marshals and exports for the
+			// value, on a fresh cell and on a cell that held something else before (Set twice on the same key)
+			emitRTRow(cw, "ToNumber", v, i/3)
+			emitRTRow(cw, "ToString", v, i/3)
+		}
 	}
 	if tier != "thorough" {
 		return
